@@ -13,7 +13,9 @@ VARIABLES l, nfail, reg
 
 Has(e, k) == k \in DOMAIN e
 RegOK(cid) == cid >= 128 /\ cid <= 255
-Apply(r, dir, cid, size) == IF RegOK(cid) /\ size > 0
+\* a registration with size 0 makes the CID a command without payload again (it replaces an earlier registration);
+\* a negative size is refused and changes nothing
+Apply(r, dir, cid, size) == IF RegOK(cid) /\ size >= 0
                               THEN [k \in (DOMAIN r) \cup {<<dir, cid>>} |-> IF k = <<dir, cid>> THEN size ELSE r[k]]
                               ELSE r
 
@@ -25,7 +27,7 @@ ItemMatches(dir, it, raw) ==
   \* (framing only: the field values of typed payloads are the business of C06/Trace_maccmd, and
   \*  mis-framed leftovers re-parse as arbitrary bytes whose RFU bits must not matter here)
 
-RegisterFails(e) == IF e.err = (IF RegOK(e.cid) THEN "" ELSE "error") THEN <<>> ELSE <<"C07.registry">>
+RegisterFails(e) == IF e.err = (IF RegOK(e.cid) /\ e.size >= 0 THEN "" ELSE "error") THEN <<>> ELSE <<"C07.registry">>
 LookupFails(e) ==
   LET exp == RegSize(reg, e.dir, e.cid) IN
   IF exp > 0 THEN (IF e.err = "" /\ e.size = exp THEN <<>> ELSE <<"C07.registry">>)
